@@ -563,6 +563,11 @@ def run(prog, rep, tier):
     rep.rule('SITE-index-offset', 'in functions with an `i_offset`, every site lookup includes it')
     if check_site_index_offset(prog, rep, ['tenpy/networks/mps.py']) < 2:
         raise AnalysisError('SITE-index-offset: site lookups of _term_to_ops_list not found')
+    from ..flow import check_group_stride
+    rep.rule('GROUP-stride', 'loops over grouped sites advance by the size of the group, never by the '
+             'nominal n')
+    if check_group_stride(prog, rep, ['tenpy/networks/mps.py']) < 1:
+        raise AnalysisError('GROUP-stride: loop over grouped_sites not found')
     from ..flow import check_reindex_congruent
     rep.rule('REINDEX-congruent', 'parallel per-site containers of an MPS are re-ordered with index '
              'arrays that agree modulo L')
